@@ -4,6 +4,7 @@ package harness
 
 import (
 	"bytes"
+	"context"
 	"encoding/json"
 	"errors"
 	"fmt"
@@ -12,9 +13,13 @@ import (
 	"os"
 	"os/exec"
 	"strings"
+	"sync"
 	"testing"
+	"time"
 
+	"github.com/creachadair/jrpc2"
 	"github.com/creachadair/jrpc2/channel"
+	"github.com/creachadair/jrpc2/handler"
 )
 
 // chunkReader delivers a byte stream in chunks of scripted sizes.
@@ -576,7 +581,10 @@ func TestC12(t *testing.T) {
 		stream []byte
 	}
 	var cases []tc
-	kinds := []string{"split:10", "split:255", "split:195", "hdr:0:-", "hdr:0:" + hxs("text/x"), "hdr:1:" + hxs("text/x"), "hdr:1:" + hxs(lspType), "raw"}
+	if _, ok := replayInput(); !ok {
+		c12ServerAtEOF(res, rng)
+	}
+	kinds := []string{"split:10", "split:255", "split:195", "hdr:0:-", "hdr:1:-", "hdr:0:" + hxs("text/x"), "hdr:1:" + hxs("text/x"), "hdr:1:" + hxs(lspType), "raw"}
 	if in, ok := replayInput(); ok {
 		var r struct{ Kind, Stream string }
 		if json.Unmarshal(in, &r) == nil && r.Kind != "" {
@@ -710,6 +718,54 @@ func TestC12(t *testing.T) {
 		} else {
 			res.Violatef("Recv differs from the documented format: "+kindClass(c.kind)+" "+firstDiff(model[i], impl[i]), in,
 				"%s stream %s: documented format (reference decoder) yields %s; Recv yields %s", c.kind, abbrev1(hx(c.stream)), abbrev1(model[i]), abbrev1(impl[i]))
+		}
+	}
+}
+
+// c12ServerAtEOF: the consumer side of "a final record ... is never silently shortened": a Server
+// reading a Line stream must hand every notification the framing yields to its handler, including
+// one that arrives together with the end of the stream (notifications, because the server keeps
+// those when it stops at EOF, whereas replies to calls may be lost with the connection).
+func c12ServerAtEOF(res *Result, rng *rand.Rand) {
+	for n := 1; n <= 3; n++ {
+		var recs []string
+		want := []int{}
+		for i := 1; i <= n; i++ {
+			recs = append(recs, fmt.Sprintf(`{"jsonrpc":"2.0","method":"note","params":[%d]}`, i))
+			want = append(want, i)
+		}
+		cut := recs[n-1][:5+rng.Intn(len(recs[n-1])-6)]
+		for k, stream := range []string{strings.Join(recs, "\n") + "\n", strings.Join(recs, "\n"), strings.Join(append(append([]string{}, recs[:n-1]...), cut), "\n")} {
+			w := want
+			if k == 2 {
+				w = want[:n-1]
+			}
+			var mu sync.Mutex
+			got := []int{}
+			var out bufWC
+			srv := jrpc2.NewServer(handler.Map{"note": handler.New(func(_ context.Context, v []int) error {
+				mu.Lock()
+				got = append(got, v...)
+				mu.Unlock()
+				return nil
+			})}, nil)
+			srv.Start(channel.Line(io.NopCloser(strings.NewReader(stream)), &out))
+			done := make(chan struct{})
+			go func() { srv.Wait(); close(done) }()
+			in := map[string]any{"kind": "server-line", "stream": hx([]byte(stream))}
+			select {
+			case <-done:
+			case <-time.After(5 * time.Second):
+				res.Violatef("server did not finish at the end of its input stream", in, "%q", stream)
+				continue
+			}
+			res.Case("server-line/"+stream, true, map[string]any{"stream": stream})
+			res.Count("server-at-eof")
+			mu.Lock()
+			if fmt.Sprint(got) != fmt.Sprint(w) {
+				res.Violatef("a record delivered together with the end of the stream was not handled by the server", in, "stream %q: handled %v, want %v", stream, got, w)
+			}
+			mu.Unlock()
 		}
 	}
 }
